@@ -188,7 +188,7 @@ Definition inst_ok (F : family) (v : value) (root : arg) (log : list entry) : bo
 Definition resolve_short (F : family) (base nm : str) : str :=
   if has_dot nm then nm
   else match filter (fun k => str_eqb (c_name k) nm && is_subclass F (c_name k) base
-                                && negb (c_abstract k)) (fam_classes F) with
+                                && negb (c_abstract k) && negb (is_private (path_of F (c_name k)))) (fam_classes F) with
        | [k] => path_of F (c_name k)
        | _ => nm
        end.
